@@ -470,10 +470,15 @@ theorem inv_enqueue {s : S} (sig : Nat) (k : Key) (hi : Inv s) : Inv (enqueue si
     · subst e; simp only [upd_same] at hc; exact Or.inl hc
     · rw [upd_other _ _ _ _ e] at hc; exact Or.inl hc
 
-theorem inv_foldl_enqueue {s : S} (sig : Nat) (ks : List Key) (hi : Inv s) : Inv (ks.foldl (enqueue sig) s) := by
+theorem inv_enqueueCap {s : S} (sig : Nat) (k : Key) (hi : Inv s) : Inv (enqueueCap sig s k) := by
+  unfold enqueueCap; split
+  · exact hi
+  · exact inv_enqueue sig k hi
+
+theorem inv_foldl_enqueue {s : S} (sig : Nat) (ks : List Key) (hi : Inv s) : Inv (ks.foldl (enqueueCap sig) s) := by
   induction ks generalizing s with
   | nil => exact hi
-  | cons k ks ih => exact ih (inv_enqueue sig k hi)
+  | cons k ks ih => exact ih (inv_enqueueCap sig k hi)
 
 theorem inv_deliver {s : S} (sig : Nat) (hi : Inv s) : Inv (deliver s sig) := by
   unfold deliver
@@ -844,19 +849,25 @@ theorem aux_enqueue {s : S} (sig : Nat) (k : Key) (ha : Aux s) (hsig : sig ≠ 0
     · exact f1 L m hm
 
 theorem aux_foldl_enqueue {s : S} (sig : Nat) (ks : List Key) (ha : Aux s)
-    (hk : ∀ k ∈ ks, sig ≠ 0 ∧ (s.hs k.id).closed = false) : Aux (ks.foldl (enqueue sig) s) := by
+    (hk : ∀ k ∈ ks, sig ≠ 0 ∧ (s.hs k.id).closed = false) : Aux (ks.foldl (enqueueCap sig) s) := by
   induction ks generalizing s with
   | nil => exact ha
   | cons k ks ih =>
     have hk0 := hk k (by simp)
-    refine ih (aux_enqueue sig k ha hk0.1 hk0.2) ?_
+    have hstep : Aux (enqueueCap sig s k) := by
+      unfold enqueueCap; split
+      · exact ha
+      · exact aux_enqueue sig k ha hk0.1 hk0.2
+    refine ih hstep ?_
     intro k' hk'
     have := hk k' (by simp [hk'])
     refine ⟨this.1, ?_⟩
-    show ((enqueue sig s k).hs k'.id).closed = false
-    simp only [enqueue, upd_apply]; split
-    · rename_i e; rw [← e]; exact this.2
+    show ((enqueueCap sig s k).hs k'.id).closed = false
+    unfold enqueueCap; split
     · exact this.2
+    · simp only [enqueue, upd_apply]; split
+      · rename_i e; rw [← e]; exact this.2
+      · exact this.2
 
 theorem aux_deliver {s : S} (sig : Nat) (hi : Inv s) (ha : Aux s) : Aux (deliver s sig) := by
   unfold deliver
@@ -1100,6 +1111,32 @@ theorem foldl_enqueue_pipes (sig : Nat) (ks : List Key) (s : S) (L : Nat) :
     · simp [e]
     · have : ¬ L = (s.hs k.id).loop := fun e2 => e e2.symm
       simp [e, this]
+
+theorem enqueue_pipe_length (sig : Nat) (s : S) (k : Key) (L : Nat) :
+    ((enqueue sig s k).pipes L).length ≤ (s.pipes L).length + 1 := by
+  simp only [enqueue, upd_apply]; split
+  · rename_i e; subst e; simp
+  · simp
+
+/-- inside the property's envelope (room for one message per visited node in every pipe) the handler
+never sees EAGAIN -/
+theorem foldl_enqueueCap_eq (sig : Nat) (ks : List Key) (s : S)
+    (hroom : ∀ L, (s.pipes L).length + ks.length ≤ pipeCap) :
+    ks.foldl (enqueueCap sig) s = ks.foldl (enqueue sig) s := by
+  induction ks generalizing s with
+  | nil => rfl
+  | cons k ks ih =>
+    have h1 : enqueueCap sig s k = enqueue sig s k := by
+      unfold enqueueCap
+      have := hroom (s.hs k.id).loop
+      simp only [List.length_cons] at this
+      rw [if_neg (by omega)]
+    simp only [List.foldl_cons, h1]
+    apply ih
+    intro L
+    have := hroom L; simp only [List.length_cons] at this
+    have := enqueue_pipe_length sig s k L
+    omega
 
 theorem countP_id_nodup (l : List Key) (hn : l.Nodup) (a : Key) (h : Nat) (ha : a.id = h)
     (huniq : ∀ k ∈ l, k.id = h → k = a) : l.countP (fun k => k.id = h) = if a ∈ l then 1 else 0 := by
